@@ -194,7 +194,7 @@ def _family(client_async: bool):
 
 FAMILIES = {'trace.sync': _family(False), 'trace.async': _family(True)}
 PLAN = {
-    'quick': {'trace.sync': 6000, 'trace.async': 8000},
+    'quick': {'trace.sync': 48000, 'trace.async': 64000},
     'thorough': {'trace.sync': 40000, 'trace.async': 60000},
 }
 THOROUGH_BUDGET_S = 600
